@@ -54,6 +54,11 @@ class AllreduceTensorBucket:
         """Get current size of tensors in bucket."""
         return self._size
 
+    @property
+    def dtype(self) -> torch.dtype | None:
+        """Get dtype of tensors in bucket (None if empty)."""
+        return self._tensors[0].dtype if len(self._tensors) > 0 else None
+
     def communicated(self) -> bool:
         """Check if communication for the bucket has been initiated."""
         return self._communicated
@@ -354,7 +359,11 @@ class TorchDistributedCommunicator:
         bucket = self._get_allreduce_bucket(group)
         if bucket is None:
             bucket = self._new_allreduce_bucket(group)
-        if bucket.size + tensor_size > self.bucket_cap_bytes:
+        if (
+            bucket.size + tensor_size > self.bucket_cap_bytes
+            or bucket.dtype not in (None, tensor.dtype)
+        ):
+            # Tensors of different dtypes cannot be fused without promotion
             bucket.allreduce()
             bucket = self._new_allreduce_bucket(group)
         future = bucket.add_tensor(tensor)
